@@ -62,3 +62,7 @@ package utils
 //@ ensures err == nil
 //@ ensures err == nil ==> BufC == store(store(old(BufC), ref(unbox(*bytes.Buffer, src)), ""), ref(unbox(*bytes.Buffer, dst)), old(BufC)[ref(unbox(*bytes.Buffer, dst))] + s2c(old(BufC)[ref(unbox(*bytes.Buffer, src))]))
 //@ ensures BufStore == store(store(old(BufStore), ref(unbox(*bytes.Buffer, src)), BufStore[ref(unbox(*bytes.Buffer, src))]), ref(unbox(*bytes.Buffer, dst)), BufStore[ref(unbox(*bytes.Buffer, dst))])
+//
+//@ func utils.TMarshal -> data, err
+//@ trusted thrift binary codec (github.com/cloudwego/frugal); content correctness is the wal part of C11
+//@ assigns nothing
